@@ -76,6 +76,14 @@ def generate(rng, tier, mode="default"):
                     prev = o.split()[0]
                 if not okp: continue
                 out.append([hdr(max(size1, 1)), *fill, "z0 = h0 h1 zip"] + ["z0 " + o for o in w] + ["z0 next", "END"])
+    # (e2) zip iterator add under every single refusal: one array exactly full, the other with room (both orders),
+    #      so that "grow both first, insert into neither on failure" is exercised
+    for full_first in (0, 1):
+        for k in range(0, 9):
+            plan = "1" * k + "0"
+            fill = ["h0 add 16", "h0 add 32", "h1 = h0 copy_shallow", "h1 add 48", "h1 add 64"]      # h0 2/4, h1 4/4
+            zipl = "z0 = h1 h0 zip" if full_first else "z0 = h0 h1 zip"
+            out.append([hdr(4, "2/1", "conf", plan)] + fill + [zipl, "z0 next", "z0 add 70 71", "z0 next", "z0 add 72 73", "h0 size", "h1 size", "END"])
     # (f) stack: LIFO interleavings (exhaustive words) and long random ones, iteration, map, filter
     for cap in (1, 2, 3):
         for w in itertools.product("pq", repeat=(7 if quick else 10)):
